@@ -8,7 +8,7 @@
    exp/log/pow; [oq_equiv] — both undefined or both defined with Qeq values; [fi_proper fi] — fi respects
    Qeq; [exp_zero_one fi] — exp 0 = 1; [pow_base_one fi] — 1 ^ y = 1 for every y. *)
 From Coq Require Import Reals QArith List Bool PArith Arith.
-From PV Require Import Base.PyData Base.Expr Base.Interp Base.Stmts C09.Model C09.Proofs C09.ProofsExec C09.ProofsSurgery C09.ProofsR.
+From PV Require Import Base.PyData Base.Expr Base.Interp Base.Stmts C09.Model C09.Proofs C09.ProofsExec C09.ProofsSurgery C09.ProofsExt C09.ProofsR.
 Local Open Scope Q_scope.
 
 (* effect_neutral — every documented covariate-effect function (linear, piecewise linear, exponential,
@@ -203,6 +203,103 @@ Theorem add_iiv_sound :
     add_iiv T k o p eta phi l = Some lm -> spec_iiv k o p eta l = Some ls ->
     env_equiv (exec fi ode r lm) (exec fi ode r ls).
 Proof. intros; eapply add_iiv_sound_lemma; eauto. Qed.
+
+(* ---- IOV ------------------------------------------------------------------------------------------------ *)
+(* add_iov_sound — for EVERY program l, occasion column, list of requested etas with their IOV / ETAI symbols and
+   per-level IOV etas: executing the hand model of add_iov (IOV_i = 0; IOV_i = Piecewise over the levels;
+   ETAI_i = ETA_i + IOV_i; every statement: ETA_i := ETAI_i) in an environment r gives every symbol (other than the
+   declared names and the requested etas themselves) the value the ORIGINAL program gives it in the environment where
+   each requested eta is replaced by eta + (the IOV eta of the row's occasion level) — at every value of the etas. *)
+Theorem add_iov_sound :
+  forall (fi : finterp) (ode : id -> list (option Q) -> option Q) (occ : id) (items : list iov_item)
+         (l : list stmt) (r : env),
+    fi_proper fi -> ode_proper ode ->
+    NoDup (item_fresh items) -> inputs_ok occ items (item_fresh items) ->
+    (forall it, In it items -> ~ In (ie_eta it) (item_fresh items) /\ ~ In (ie_eta it) (flat_map defs l) /\
+                               ~ In (ie_eta it) (ode_rhs l)) ->
+    (forall x, In x (item_fresh items) -> ~ In x (flat_map defs l) /\ ~ In x (flat_map rhs l)) ->
+    forall x, ~ In x (item_fresh items) -> ~ In x (item_etas items) ->
+      oq_equiv (exec fi ode r (add_iov occ items l) x) (exec fi ode (shift occ items r r) l x).
+Proof. intros; apply add_iov_sound_lemma; assumption. Qed.
+
+(* remove_add_iov — remove_iov (every IOV eta := 0 in every statement) after add_iov gives back the values of the
+   original program, for every program and every value of the etas, on rows whose occasion is one of the levels. *)
+Theorem remove_add_iov :
+  forall (fi : finterp) (ode : id -> list (option Q) -> option Q) (occ : id) (items : list iov_item)
+         (l : list stmt) (r : env),
+    fi_proper fi -> ode_proper ode ->
+    let ies := flat_map (fun it => level_etas (ie_levels it)) items in
+    NoDup (item_fresh items) -> inputs_ok occ items (item_fresh items) ->
+    (forall it, In it items -> ~ In (ie_eta it) (item_fresh items) /\ ~ In (ie_eta it) (flat_map defs l) /\
+                               ~ In (ie_eta it) (ode_rhs l)) ->
+    (forall x, In x (item_fresh items) -> ~ In x (flat_map defs l) /\ ~ In x (flat_map rhs l)) ->
+    ~ In occ ies ->
+    (forall e, In e ies -> ~ In e (flat_map defs l) /\ ~ In e (flat_map rhs l) /\ ~ In e (ode_rhs l)) ->
+    (forall it, In it items -> exists o lv, r occ = Some o /\ In lv (ie_levels it) /\ Qeq_bool (fst lv) o = true) ->
+    forall x, ~ In x (item_fresh items) -> ~ In x (item_etas items) -> ~ In x ies ->
+      oq_equiv (exec fi ode r (remove_iov ies (add_iov occ items l)) x) (exec fi ode r l x).
+Proof. intros; apply remove_add_iov_lemma; assumption. Qed.
+
+(* program_substitution — Statements.subs of a symbol the program does not assign: the substituted program in r
+   computes what the program computes in r[s := value of t] (the lemma behind both IOV theorems). *)
+Theorem program_substitution :
+  forall (fi : finterp) (ode : id -> list (option Q) -> option Q) (s : id) (t : expr) (l : list stmt) (r : env) (x : id),
+    ~ In s (flat_map defs l) -> (forall y, In y (free_syms t) -> ~ In y (flat_map defs l)) -> ~ In s (ode_rhs l) ->
+    x <> s ->
+    exec fi ode r (subs_stmts_sym s t l) x = exec fi ode (upd r s (eval r fi t)) l x.
+Proof. intros; apply exec_subs_upd; assumption. Qed.
+
+(* ---- allometry ------------------------------------------------------------------------------------------- *)
+(* allometry_formula — one step of add_allometry is "insert P = P * (X / Z) ** T after the last assignment of P";
+   allometry_program_neutral — the whole add_allometry (any list of parameters, every program) leaves every symbol
+   unchanged when the allometric variable has the reference value (1^y = 1). *)
+Theorem allometry_formula :
+  forall (fi : finterp) (ode : id -> list (option Q) -> option Q) (T : templates) (var : id) (ref : Q)
+         (l : list stmt) (p th : id) (i : nat) (r : env),
+    fi_proper fi -> ode_proper ode -> templates_equiv T doc_templates -> find_assignment_index l p = Some i ->
+    env_equiv (exec fi ode r (add_allometry1 T var ref l (p, th)))
+              (exec fi ode r (firstn (S i) l ++ Assign p (doc_allometry_closed p th var ref) :: skipn (S i) l)).
+Proof. intros; apply add_allometry1_formula; assumption. Qed.
+
+Theorem allometry_program_neutral :
+  forall (fi : finterp) (ode : id -> list (option Q) -> option Q) (T : templates) (var : id) (ref : Q)
+         (params : list (id * id)) (l : list stmt) (r : env) (m : Q),
+    fi_proper fi -> pow_base_one fi -> ode_proper ode -> templates_equiv T doc_templates ->
+    ~ In var (flat_map defs l) -> ~ In var (map fst params) ->
+    (forall pt, In pt params -> ~ In (snd pt) (flat_map defs l) /\ ~ In (snd pt) (map fst params) /\
+                                exists t, r (snd pt) = Some t) ->
+    r var = Some m -> m == ref -> ~ ref == 0 ->
+    env_equiv (exec fi ode r (add_allometry T var ref params l)) (exec fi ode r l).
+Proof. intros; eapply add_allometry_neutral_lemma; eauto. Qed.
+
+(* ---- BLQ ------------------------------------------------------------------------------------------------- *)
+(* blq_above_lloq_unchanged — the statement-level model of transform_blq M3/M4 (SD, LLOQ, F_FLAG, CUMD, CUMDZ, the
+   Piecewise Y whose first branch is the original observation model and whose other branch is the likelihood of a
+   censored observation): wherever the "above LLOQ" indicator holds at the point where Y is assigned, Y and every
+   other symbol of the original program have the values of the original program. *)
+Theorem blq_above_lloq_unchanged :
+  forall (fi : finterp) (ode : id -> list (option Q) -> option Q) (a : blq_args) (l l' : list stmt) (r : env),
+    fi_proper fi -> ode_proper ode ->
+    transform_blq a l = Some l' ->
+    (forall x, In x (blq_fresh a) -> ~ In x (flat_map defs l) /\ ~ In x (flat_map rhs l)) ->
+    ~ In (b_y a) (blq_fresh a) ->
+    (forall i yexpr, find_assignment_index l (b_y a) = Some i -> nths l i = Assign (b_y a) yexpr ->
+       evalc (exec fi ode r (firstn i l ++ blq_prefix a yexpr)) fi (b_above a) = Some true) ->
+    forall x, ~ In x (blq_fresh a) -> oq_equiv (exec fi ode r l' x) (exec fi ode r l x).
+Proof. intros fi ode a l l' r Hp Ho Ht Hf Hy Ha. apply (transform_blq_above_lemma fi Hp ode Ho a l l' r Ht Hf Hy Ha). Qed.
+
+(* ---- transit rates --------------------------------------------------------------------------------------- *)
+(* transit_rates_after_update — model of _update_numerators (loop over the DETECTED transit compartments; integer
+   numerators written directly or through a rate symbol are replaced by the number of detected compartments): when
+   the chain does not consist of a single compartment (the guard of the open finding C09-TRANSIT-REDUCE-TO-ONE),
+   every rate k/MDT becomes n/MDT with n the length of the chain — so the mean transit time is MDT (transit_mdt). *)
+Theorem transit_rates_after_update :
+  forall (rates : list trate) (d : rate_defs),
+    length rates <> 1%nat ->
+    (forall rt, In rt rates -> exists z, rate_value d rt = Some (NInt z, Sym s_mdt)) ->
+    let '(rates', d') := rates_after_update rates d in
+    forall rt', In rt' rates' -> rate_value d' rt' = Some (NInt (inject_Z (Z.of_nat (length rates))), Sym s_mdt).
+Proof. exact rates_after_update_lemma. Qed.
 
 (* ---- over the real numbers (Coq.Reals: exp, ln, Rpower) -------------------------------------------- *)
 (* effect_neutral_real / iiv_neutral_real — the same neutrality statements with the REAL exponential, logarithm
